@@ -51,10 +51,21 @@ func runWorker(c *common, run scenRunner, setup func() error) error {
 			return err
 		}
 	}
-	for _, ln := range lines {
+	// time budget: when the code under test makes every scenario slow (blocked goroutines, timeouts), the
+	// worker stops after its budget instead of running for hours; what was observed is still judged
+	budget := 150 * time.Second
+	if c.tier == "thorough" {
+		budget = 1500 * time.Second
+	}
+	t0 := time.Now()
+	for i, ln := range lines {
 		var ts tidScen
 		if err := json.Unmarshal(ln, &ts); err != nil {
 			return err
+		}
+		if time.Since(t0) > budget {
+			fmt.Printf("NOTE worker stopped after its time budget: %d of %d scenarios run\n", i, len(lines))
+			break
 		}
 		fmt.Fprintf(j, "B %d\n", ts.Tid)
 		err := run(w, ts.Tid, ts.Scen, c)
@@ -143,6 +154,11 @@ func runMaster(c *common, family string, scens []tidScen, extraArgs []string, pe
 				mu.Lock()
 				frags = append(frags, frag{todo[0].Tid, tf})
 				mu.Unlock()
+				for _, ln := range strings.Split(outb.String(), "\n") {
+					if strings.HasPrefix(ln, "NOTE ") {
+						fmt.Println(ln)
+					}
+				}
 				if werr == nil {
 					return
 				}
